@@ -949,3 +949,17 @@ PROPS["C17"]["claim"] += (" Since C17ObjUnmarshalFull (about 3900 lines) the unm
     "one token earlier in the stateful model).")
 PROPS["C13"]["theorems"] += ["Refmt.C17ObjUnmarshal.unmarshaller_refines_target"]
 PROPS["C13"]["extra_modules"] = PROPS["C13"].get("extra_modules", []) + ["RefmtProofs.Props.C17ObjUnmarshalFull"]
+
+# C17ObjUnmarshalUnion: keyed unions and atlas-resolved tags (about 4900 lines)
+PROPS["C17"]["theorems"] += ["Refmt.C17ObjUnmarshal.unmarshaller_refines_frag_union", "Refmt.C17ObjUnmarshal.unmarshaller_refines_target_union",
+    "Refmt.C17ObjUnmarshal.unmarshaller_refines_target_tags"]
+PROPS["C17"]["extra_modules"] = PROPS["C17"].get("extra_modules", []) + ["RefmtProofs.Props.C17ObjUnmarshalUnion"]
+PROPS["C17"]["claim"] += (" Since C17ObjUnmarshalUnion the two remaining machines are covered as well: keyed unions anywhere (target, element, struct "
+    "field, behind pointers, recursively) whose members are struct-map, map or transform-over-container entries "
+    "(unmarshaller_refines_target_union, FragTargetU), and tagged tokens resolved through the atlas in untyped slots - entry found, "
+    "entry not found, slot of an interface type with methods; tags on typed targets, keys and closes ignored by both models "
+    "(unmarshaller_refines_target_tags, FragTargetT). Left out by these two theorems: a union member or tagged entry that is a "
+    "transform over a PRIMITIVE receive type or a bare primitive / union / wildcard entry (the proof would need an extra row invariant); "
+    "the zoo has such entries, and for them the unmarshalm cases remain the tie.")
+PROPS["C13"]["theorems"] += ["Refmt.C17ObjUnmarshal.unmarshaller_refines_target_union", "Refmt.C17ObjUnmarshal.unmarshaller_refines_target_tags"]
+PROPS["C13"]["extra_modules"] = PROPS["C13"].get("extra_modules", []) + ["RefmtProofs.Props.C17ObjUnmarshalUnion"]
